@@ -230,6 +230,54 @@ pub fn run_c16(cli: &Cli) -> Report {
             }
         }
     });
+    // populated base: every key holds a distinct non-zero value; each key is then written with the
+    // special values 0 / 1 / MAX and every name-mapped accessor is predicted from the key values
+    // (a zero liquidation factor falls back to min_collateral_factor, as PositionParams documents)
+    e1::run(&mut rep, "market config keys, populated base x {0,1,MAX}", &keys, |key, sink| {
+        let name = key.to_string();
+        for closed in [false, true] {
+            for enable_closed in [false, true] {
+                let mut base = new_market(false);
+                base.set_config_flag("enable_market_closed_params", enable_closed).expect("flag");
+                base.set_flag(gmsol_utils::market::MarketFlag::Closed, closed);
+                for (i, k) in keys.iter().enumerate() {
+                    if let Ok(v) = base.get_config_mut(&k.to_string()) {
+                        *v = 1_000_003 + 7 * i as u128;
+                    }
+                }
+                for value in [0u128, 1, u128::MAX] {
+                    let mut m = base.clone();
+                    let Ok(slot) = m.get_config_mut(&name) else { continue };
+                    *slot = value;
+                    sink.case(true);
+                    let rp = || json!({"key": name, "value": value.to_string(), "closed": closed, "enable_closed_params": enable_closed, "base": "populated"});
+                    let cfg = |k: &str| m.get_config(k).ok().copied();
+                    let use_closed = closed && enable_closed;
+                    for k in &keys {
+                        let n = k.to_string();
+                        let Some(got) = accessor(&*m, &n) else { continue };
+                        let source: String = if use_closed {
+                            match n.as_str() {
+                                "min_collateral_factor_for_liquidation" => "market_closed_min_collateral_factor_for_liquidation".into(),
+                                s if s.starts_with("borrowing_fee_base_factor_for_") => "market_closed_borrowing_fee_base_factor".into(),
+                                s if s.starts_with("borrowing_fee_above_optimal_usage_factor_for_") => "market_closed_borrowing_fee_above_optimal_usage_factor".into(),
+                                _ => n.clone(),
+                            }
+                        } else {
+                            n.clone()
+                        };
+                        let mut want = cfg(&source);
+                        if n == "min_collateral_factor_for_liquidation" && want == Some(0) {
+                            want = cfg("min_collateral_factor");
+                        }
+                        if Some(got) != want {
+                            sink.fail_with("C16/model_parameter_not_fed", || (format!("after writing {name}={value} (closed {closed}, closed params {enable_closed}) parameter {n} reads {got}, key {source} holds {want:?}"), rp()));
+                        }
+                    }
+                }
+            }
+        }
+    });
     let flags: Vec<MarketConfigFlag> = MarketConfigFlag::iter().collect();
     e1::run(&mut rep, "market config flags", &flags, |flag, sink| {
         let name = flag.to_string();
